@@ -5,7 +5,7 @@ import contextlib
 import io
 from typing import Any, Dict, List, Tuple
 
-from harness import gen_stack
+from harness import gen_imm, gen_stack
 from props import common, families
 from props.common import Ctx, Outcome, VERIF
 from vlib import avmspec, chrunner
@@ -20,7 +20,7 @@ SAMPLE_IMM = {
     "ecdsa_pk_decompress": ["Secp256k1"], "ecdsa_pk_recover": ["Secp256k1"], "cover": ["0", "2"], "uncover": ["0", "3"], "extract": ["0 1"], "app_params_get": ["AppGlobalNumUint"],
     "itxn_field": ["Fee"], "itxn": ["Fee"], "itxna": ["Logs 0"], "txnas": ["ApplicationArgs"], "gtxnas": ["0 ApplicationArgs"], "gtxnsas": ["ApplicationArgs"],
     "acct_params_get": ["AcctBalance"], "gitxn": ["0 Fee"], "gitxna": ["0 Logs 0"], "itxnas": ["Logs"], "gitxnas": ["0 Logs"], "base64_decode": ["URLEncoding"],
-    "json_ref": ["JSONString"], "vrf_verify": ["VrfAlgorand"], "block": ["BlkSeed"], "replace2": ["0"], "pushbytess": ["0x01 0x02", "0x01"], "pushints": ["1 2 3", "7"],
+    "json_ref": ["JSONString"], "vrf_verify": ["VrfAlgorand"], "block": ["BlkSeed"], "replace2": ["0", "3"], "replace": ["", "0", "00", "0x0", "1"], "pushbytess": ["0x01 0x02", "0x01"], "pushints": ["1 2 3", "7"],
     "bury": ["1", "3"], "popn": ["0", "2"], "dupn": ["0", "2"], "proto": ["1 1"], "frame_dig": ["0", "-1"], "frame_bury": ["0"], "switch": ["a b", "a"], "match": ["a b", "a"],
 }
 
@@ -47,7 +47,11 @@ def table_check() -> List[KResult]:
             if got == exp:
                 out.append(KResult(f"table:{op}", "confirmed", "", line, None, 0.0, "reachable", {"line": line, "effect": list(exp)}))
             else:
-                out.append(KResult(f"table:{op}", "refuted", f"{line!r}: (pops, pushes) = {got}, AVM: {exp}", line, True, 0.0, "", {"line": line}))
+                name = f"table:{op}"
+                if op == "frame_bury" and got != (1, 1):
+                    # the listed finding KF-C11-frame-bury is the declared effect (1, 1); any other wrong effect is a different violation
+                    name = "table-other:frame_bury"
+                out.append(KResult(name, "refuted", f"{line!r}: (pops, pushes) = {got}, AVM: {exp}", line, True, 0.0, "", {"line": line}))
     return out
 
 
@@ -56,6 +60,8 @@ def run(ctx: Ctx) -> int:
     text = gen_stack.generate(VERIF, ctx.tier)
     kres = chrunner.run_module(text, f"k_c11_{ctx.tier}", timeout=120 if ctx.quick else 600)
     tres = table_check()
+    # every instruction class with integer immediates (pseudo-ops included): stack effect for ALL immediate values
+    kres = list(kres) + chrunner.run_module(gen_imm.generate(VERIF, ctx.tier, "fx"), f"k_c11_imm_{ctx.tier}", timeout=120 if ctx.quick else 600)
     kcounts = common.k_results_to_outcome(ctx, list(kres) + tres, outcome, "k_c11")
     from tealer.analyses.utils import stack_ast_builder as SB
     from tealer.teal.instructions import instructions as I
@@ -68,7 +74,8 @@ def run(ctx: Ctx) -> int:
             "explanation": "bounded symbolic execution (CrossHair/z3) of the real emulation step Stack.pop_n_values for an arbitrary tracked stack (depth 0-4) and pop count (0-6), of "
                            "construct_stack_ast on a block of three instructions with symbolic stack effects against a reference execution over abstract value identities, and of "
                            "the stack effects of every opcode whose effect depends on its immediates (dig/cover/uncover/bury/popn/dupn n for all 0<=n<=255, pushints/pushbytess and "
-                           "switch/match with 0-6 elements, proto, frame_dig/frame_bury); the immediate-free opcodes are a finite table (every opcode of TEAL v1-v8) compared "
+                           "switch/match with 0-6 elements, proto, frame_dig/frame_bury) and of every instruction class that carries integer immediates at all (read from the live module; pseudo-ops "
+                           "such as `replace [s]` included) for every immediate value 0..255; the immediate-free opcodes are a finite table (every opcode of TEAL v1-v8) compared "
                            "with an independent AVM table - that part is enumerated completely and has no symbolic dimension",
             "evaluations": kcounts["obligations"],
             "distinct_nontrivial": kcounts["confirmed"],
